@@ -125,3 +125,21 @@ def near_tie_evidence(a, b, rel=1e-9):
     if na != nb:
         ev.append(("distinct-count-differs", (na[:3], nb[:3])))
     return ev
+
+
+def linear_underflow(*outs):
+    """True when a linear-space discrete run worked with cells at the bottom of the floating-point range
+    (subnormal or about to be): such cells have lost most of their digits, and the order in which factors
+    are multiplied - hence node numbering - shows in the result. Observed on the fit, not assumed."""
+    for o in outs:
+        fit = getattr(o, "fit", None)
+        for name in ("inside", "outside", "posterior_grid"):
+            g = getattr(fit, name, None)
+            if g is None or not hasattr(g, "grid_data"):
+                continue
+            if getattr(g, "probability_space", None) not in (None, "linear"):
+                continue
+            arr = np.asarray(g.grid_data, dtype=float)
+            if np.any((arr > 0) & (arr < 1e-300)):
+                return True
+    return False
